@@ -64,7 +64,7 @@ CLAIMED.update({
  "C12": dict(
    category="fault_enumeration", design="DESIGN.md §3 C12",
    technique="runtime monitoring with schedule control (build-tag gates, simulator parking, SIGKILL) + porcupine linearizability check of the recorded lock history",
-   text="The product holder (4 kinds) x phase (after-lock, login, config read, mid-apply, save, before status write) x contender (6 spellings/front-ends) x {1,3 contenders} x {release, SIGKILL} on two device types is executed (thorough: all 864 schedules, quick: 1-in-5), holders under GC stress (GOGC=1) and with a connection helper that ignores SIGHUP and outlives the holder by 1.5 s; contenders must exit 1 with 'Approve in progress', open no simulator session and change no status/history/log file while the holder is parked, a later run must get the lock; ungated stress rounds of 8 simultaneous runs check session events for interleaving and the lock history with porcupine.",
+   text="The product holder (5 kinds, one a manual drc -C without -L) x phase (after-lock, login, config read, mid-apply, save, before status write) x contender (8 spellings/front-ends, two without log directory) x {1,3 contenders} x {release, SIGKILL} on two device types is executed (thorough: all schedules, quick: 1-in-5), holders under GC stress (GOGC=1) and with a connection helper that ignores SIGHUP and outlives the holder by 1.5 s; contenders must exit 1 with 'Approve in progress', open no simulator session and change no status/history/log file while the holder is parked, a later run must get the lock; ungated stress rounds of 8 simultaneous runs check session events for interleaving and the lock history with porcupine.",
    note="Crash = SIGKILL; kernel flock semantics are trusted. Gates are the verif-tagged verifhook.Point calls right after SetLock and before status.Set*."),
  "C15": dict(
    category="fault_enumeration", design="DESIGN.md §3 C15",
